@@ -330,6 +330,12 @@ def _expand(stmts, cont, tail, in_loop=False):
 
 def _inline_stmt(st, helper, call, caller, mode, extra=None):
     """statements that replace st.  mode: expr | assign | return | if (extra = (negated,))"""
+    out = _inline_stmt0(st, helper, call, caller, mode, extra)
+    helper.used = getattr(helper, "used", 0) + 1
+    return out
+
+
+def _inline_stmt0(st, helper, call, caller, mode, extra=None):
     prelude, subst, renames = _bind(helper, call, caller, st)
     body = clone(helper.body)
     sub = _Subst(subst, renames)
@@ -421,6 +427,7 @@ class _ExprInliner(ast.NodeTransformer):
         if prelude or renames:
             return n
         self.hit += 1
+        h.used = getattr(h, "used", 0) + 1
         return ast.copy_location(_Subst(subst, {}).visit(clone(h.body[0].value)), n)
 
 
@@ -514,7 +521,7 @@ def inline_new_helpers(tree, ref_mod, known_names):
         elif isinstance(n, ast.Attribute) and isinstance(n.ctx, ast.Load):
             pass
     for (c, f), h in helpers.items():
-        if remaining.get(f, 0) == 0:
+        if remaining.get(f, 0) == 0 and getattr(h, "used", 0) > 0:      # expanded somewhere here and called nowhere any more
             h.fn._folded = True
     stats["folded"] = sorted(f for (c, f), h in helpers.items() if getattr(h.fn, "_folded", False))
     # ... and is removed from the tree, so that who-may-call / who-may-write / sibling rules see the program as it was
